@@ -17,7 +17,7 @@ from ..runner import NUMPOLY_DIR
 ID = "C17"
 LEVEL = "fault_enumeration"
 RULE = (
-    "each step calls one public numpoly callable (164-entry catalogue: functions, numpy spellings, operators incl. reflected, "
+    "each step calls one public numpoly callable (181-entry catalogue: functions, numpy spellings, operators incl. reflected, "
     "methods, properties) on generated C01-space arguments (incl. already-aligned operands and plain-array partners); run "
     "classes: fault-free, natural-error (spoiled arguments), line interrupt at position k of N (N measured by a fault-free dry "
     "run; quick: 5 positions per step incl. first/last, thorough: every k for N<=1500 else 60 positions), MemoryError at "
